@@ -261,6 +261,8 @@ def nest_world() -> dict[str, Any]:
         ),
         mk_leaf("rvm", "v2_union", 207),
         mk_pkg("rvep", [mk_leaf("p", "v2", 208)]),
+        # two distinct check modules reporting under one error code (a copy-pasted ErrorInfo): each is a check of its own
+        mk_pkg("rvd", [mk_leaf("one", "v2", 210), mk_leaf("two", "v3", 210), mk_leaf("three", "v2_str", 211)]),
     ]
     return {"id": "nest", "tree": tree, "ep": "rvep"}
 
@@ -807,7 +809,7 @@ def process_world(ctx: Any, world: dict[str, Any], root: Path, builtin_forest: l
         ok_tl = [tl for tl in tlists if all(t in universe for t in tl)]
         if world["id"] == "nest":
             fixed = [["rvq"], ["rvq", "rvq"], ["rvq", "rvq.a"], ["rvq.a", "rvq"], ["rvq.sub.deep.d", "rvq.sub", "rvq"], ["rvq.sub", "rvq.sub.deep"],
-                     [BUILTIN, "rvq.b"], ["rvq.b", b_leaf or BUILTIN, "rvq.b"], ["rvm", "rvm"], ["rvep"], ["rvep.p"], []]
+                     [BUILTIN, "rvq.b"], ["rvq.b", b_leaf or BUILTIN, "rvq.b"], ["rvm", "rvm"], ["rvep"], ["rvep.p"], [], ["rvd"], ["rvd.two", "rvd.one"], ["rvd.two"]]
             for i, tl in enumerate(fixed):
                 cli_cases.append((tl, fsets[i % len(fsets)]))
                 if i % 3 == 0 or n_cli > 20:
